@@ -4,6 +4,7 @@
   this function is established differentially (Lean model + independent hashlib computation).
 -/
 import PG.Model.Sha1
+import PG.Lemmas.Sha1L
 namespace PG
 
 /-- the identifier is the version-5 UUID of exactly the given bytes in the namespace that is
@@ -11,21 +12,31 @@ namespace PG
     the bytes alone -/
 theorem C18_definition (bs : Bytes) :
     mappingUuid bs = uuidV5 (uuidV5 nsDNS litGuardsquare) bs := by
-  sorry
+  unfold mappingUuid nsGuardsquare
+  rfl
 
 /-- SHA-1 padding always produces whole 64-byte blocks -/
 theorem C18_pad (msg : Bytes) : (sha1Pad msg).length % 64 = 0 := by
-  sorry
+  rw [sha1Pad_length]
+  omega
 
 /-- a SHA-1 digest has 20 bytes -/
-theorem C18_sha1_length (msg : Bytes) : (sha1 msg).length = 20 := by
-  sorry
+theorem C18_sha1_length (msg : Bytes) : (sha1 msg).length = 20 :=
+  sha1_length msg
 
 /-- every identifier has 16 bytes, version nibble 5 and variant bits 10 -/
 theorem C18_version_variant (ns name : Bytes) :
     ∃ b0 b1 b2 b3 b4 b5 b6 b7 b8 b9 b10 b11 b12 b13 b14 b15 : UInt8,
       uuidV5 ns name = [b0, b1, b2, b3, b4, b5, b6, b7, b8, b9, b10, b11, b12, b13, b14, b15] ∧
       b6 >>> 4 = 5 ∧ b8 >>> 6 = 2 := by
-  sorry
+  have hlen : ((sha1 (ns ++ name)).take 16).length = 16 := by
+    rw [List.length_take, sha1_length]
+    rfl
+  obtain ⟨b0, b1, b2, b3, b4, b5, b6, b7, b8, b9, b10, b11, b12, b13, b14, b15, h⟩ :=
+    list_length16 _ hlen
+  refine ⟨b0, b1, b2, b3, b4, b5, (b6 &&& 0x0F) ||| 0x50, b7, (b8 &&& 0x3F) ||| 0x80, b9, b10,
+    b11, b12, b13, b14, b15, ?_, u8_ver b6, u8_var b8⟩
+  unfold uuidV5
+  rw [h]
 
 end PG
